@@ -638,7 +638,22 @@ def _lookup_witness():
                         'cmd': '%s --defs %r %s %r' % (QUERY_BIN, _LOOKUP_DEFS, ' '.join(repr(h) for h in hist), q)}
     # canonical names, exhaustively: every prefix x (unit, base unit, long name, defined name) [+ s] of the bundled database
     # (about 560000 names) and of the database with the colliding definitions: the canonical name denotes what the name denotes
-    for defs_args in ([], ['--defs', _LOOKUP_DEFS]):
+    sweeps = [[], ['--defs', _LOOKUP_DEFS]]
+    if os.environ.get('VERIF_TIER') == 'thorough':
+        # random databases with deliberately colliding names: names glued from prefix spellings and fragments of them, so that a
+        # name has several prefix + unit readings, shadows a plural or completes a long prefix (seeded by VERIF_SEED)
+        import random as _rnd
+        rng = _rnd.Random(int(os.environ.get('VERIF_SEED', '1') or 1))
+        parts = ['m', 'icro', 'u', 'k', 'ilo', 'd', 'a', 'da', 's', 'ss', 'zfo', 'zf', 'o', 'in', 'h', 'ecto', 'c', 'enti', 'illi', 'eci', 'eca', 'zq']
+        for _ in range(8):
+            names = set()
+            while len(names) < 14:
+                n = ''.join(rng.choice(parts) for _ in range(rng.randint(2, 4)))
+                if 'z' in n:   # never a name of the bundled database
+                    names.add(n)
+            text = ''.join('%s %d %s\n' % (n, rng.randint(2, 97), rng.choice(['m', 's', 'kg'])) for n in sorted(names))
+            sweeps.append(['--defs', text])
+    for defs_args in sweeps:
         rc, so, se, dt = run([QUERY_BIN] + defs_args + ['--canon-sweep', '1'], timeout=600)
         bad = [l for l in so.splitlines() if l.startswith('CANON-BAD')]
         summary = [l for l in so.splitlines() if l.startswith('CANON-SWEEP')]
@@ -661,7 +676,7 @@ def _lookup_witness():
         bad = rest_bad
         if bad or not summary or rc != 0:
             first = bad[0] if bad else (so + se)[-300:]
-            return {'replayer': 'canonsweep', 'input': {'defs': _LOOKUP_DEFS if defs_args else '', 'name': first.split(' ')[1] if bad else ''}, 'output': '\n'.join(bad[:20] + summary),
+            return {'replayer': 'canonsweep', 'input': {'defs': defs_args[1] if defs_args else '', 'name': first.split(' ')[1] if bad else ''}, 'output': '\n'.join(bad[:20] + summary),
                     'why': 'canonicalising changes what the name denotes: %s (%s)' % (first, summary[0] if summary else 'no summary'),
                     'cmd': '%s %s --canon-sweep 1' % (QUERY_BIN, ' '.join(repr(a) for a in defs_args))}
     defs, q, want = _LOOKUP_SUBST
